@@ -18,7 +18,7 @@ I = [["i", 0, 0]]
 
 
 def eval_instance(tier, seed=0):
-    """Two spaces (S, T), three cells T.a < S.b < S.c, references T.q, S.r and a
+    """Spaces S, T and T.W, three cells T.W.a < S.b < S.c, references T.W.q, S.r and a
     model-level g; every dependency-path kind of C02 appears in some formula."""
     flib = {
         # a (in T)
@@ -28,23 +28,23 @@ def eval_instance(tier, seed=0):
         "A4": F(I, [["const", 3], ["read", ["_model", "S", "g"]]]),       # model-level ref reached through a space
         "A5": F(I, [["const", 4], ["raise", 1]]),
         "A6": F(I, [["const", 5], ["none"]]),
-        "A7": F(I, [["const", 6], ["read", ["_model", "T", "q"]]]),       # own space's ref, by attribute path
+        "A7": F(I, [["const", 6], ["read", ["_model", "T", "W", "q"]]]),       # own space's ref, by attribute path
         # b (in S)
-        "B1": F(I, [["const", 10], ["call", ["_model", "T", "a"], [["k", 1]], "pos"]]),
-        "B2": F(I, [["const", 10], ["call", ["_model", "T", "a"], [["k", 1]], "sub"], ["read", ["r"]]]),
-        "B3": F(I, [["const", 20], ["read", ["_model", "T", "q"]]]),
+        "B1": F(I, [["const", 10], ["call", ["_model", "T", "W", "a"], [["k", 1]], "pos"]]),
+        "B2": F(I, [["const", 10], ["call", ["_model", "T", "W", "a"], [["k", 1]], "sub"], ["read", ["r"]]]),
+        "B3": F(I, [["const", 20], ["read", ["_model", "T", "W", "q"]]]),
         "B4": F(I, [["const", 10], ["call", ["b"], [["dec", 1]], "pos"],
-                    ["call", ["_model", "T", "a"], [["c", 0]], "kw"]]),
-        "B5": F(I, [["const", 30], ["call", ["_model", "T", "a"], [["k", 1]], "pos"]], catch=True),
+                    ["call", ["_model", "T", "W", "a"], [["c", 0]], "kw"]]),
+        "B5": F(I, [["const", 30], ["call", ["_model", "T", "W", "a"], [["k", 1]], "pos"]], catch=True),
         # c (in S)
         "C1": F(I, [["const", 100], ["call", ["b"], [["k", 1]], "pos"],
-                    ["call", ["_model", "T", "a"], [["dec", 1]], "pos"]]),
+                    ["call", ["_model", "T", "W", "a"], [["dec", 1]], "pos"]]),
         "C2": F(I, [["const", 100], ["call", ["b"], [["k", 1]], "kw"], ["raise", 2]]),
         "C3": F(I, [["const", 200], ["call", ["b"], [["k", 1]], "pos"], ["read", ["_space", "r"]]]),
-        "C4": F(I, [["const", 300], ["call", ["_model", "T", "a"], [["k", 1]], "pos"],
+        "C4": F(I, [["const", 300], ["call", ["_model", "T", "W", "a"], [["k", 1]], "pos"],
                     ["call", ["b"], [["k", 1]], "pos"]], catch=True),
         # the same reference read by path in the caller BEFORE the call and again below it
-        "C5": F(I, [["const", 400], ["read", ["_model", "T", "q"]], ["call", ["b"], [["k", 1]], "pos"]]),
+        "C5": F(I, [["const", 400], ["read", ["_model", "T", "W", "q"]], ["call", ["b"], [["k", 1]], "pos"]]),
     }
     alts = {"a": ["A1", "A2", "A3", "A4", "A5", "A6", "A7"], "b": ["B1", "B2", "B3", "B4", "B5"],
             "c": ["C1", "C2", "C3", "C4", "C5"]}
@@ -59,16 +59,16 @@ def eval_instance(tier, seed=0):
     def defs(fa, fb, fc, ca, cb, cc):
         return {
             "flib": flib, "sigs": sigs,
-            "sp": [["S"], ["T"]],
-            "bases": [[["S"], []], [["T"], []]],
-            "cells": [[["T"], {"a": {"f": fa, "cached": ca, "an": 0}}],
+            "sp": [["S"], ["T"], ["T", "W"]],
+            "bases": [[["S"], []], [["T"], []], [["T", "W"], []]],
+            "cells": [[["T"], {}], [["T", "W"], {"a": {"f": fa, "cached": ca, "an": 0}}],
                       [["S"], {"b": {"f": fb, "cached": cb, "an": 0},
                                "c": {"f": fc, "cached": cc, "an": 0}}]],
-            "refs": [[["T"], {"q": {"v": ["int", 1, [], ""], "mode": "auto"}}],
+            "refs": [[["T"], {}], [["T", "W"], {"q": {"v": ["int", 1, [], ""], "mode": "auto"}}],
                      [["S"], {"r": {"v": ["int", 1, [], ""], "mode": "auto"}}]],
             "grefs": {"g": {"v": ["int", 7, [], ""]}},
             "pf": [], "inp": [], "an": False,
-            "span": [[["S"], 0], [["T"], 0]],
+            "span": [[["S"], 0], [["T"], 0], [["T", "W"], 0]],
         }
     combos = list(itertools.product(alts["a"], alts["b"], alts["c"],
                                     [True, False], [True, False], [True, False]))
@@ -79,23 +79,23 @@ def eval_instance(tier, seed=0):
         combos = curated + rng.sample(combos, 120)
     inits = [defs(*c) for c in combos]
     ops = []
-    for p, c in ((["T"], "a"), (["S"], "b"), (["S"], "c")):
+    for p, c in ((["T", "W"], "a"), (["S"], "b"), (["S"], "c")):
         for k in (0, 1):
             ops.append({"op": "call", "c": [p, [], c], "args": [k], "sp": "pos"})
-    ops.append({"op": "set_value", "c": [["T"], [], "a"], "args": [0], "v": 50})
+    ops.append({"op": "set_value", "c": [["T", "W"], [], "a"], "args": [0], "v": 50})
     ops.append({"op": "set_value", "c": [["S"], [], "b"], "args": [1], "v": 60})
-    ops.append({"op": "clear_at", "c": [["T"], [], "a"], "args": [1]})
+    ops.append({"op": "clear_at", "c": [["T", "W"], [], "a"], "args": [1]})
     ops.append({"op": "clear_at", "c": [["S"], [], "b"], "args": [0]})
-    ops.append({"op": "clear", "c": [["T"], [], "a"]})
+    ops.append({"op": "clear", "c": [["T", "W"], [], "a"]})
     ops.append({"op": "clear_all", "c": [["S"], [], "b"]})
-    for s, n, v in ((["T"], "q", 2), (["S"], "r", 2), ([], "g", 8), (["S"], "g", 9)):
+    for s, n, v in ((["T", "W"], "q", 2), (["S"], "r", 2), ([], "g", 8), (["S"], "g", 9)):
         ops.append({"op": "set_ref", "s": s, "n": n, "v": ["int", v, [], ""], "mode": "auto"})
-    for s, n in ((["T"], "q"), ([], "g"), (["S"], "g")):
+    for s, n in ((["T", "W"], "q"), ([], "g"), (["S"], "g")):
         ops.append({"op": "del_ref", "s": s, "n": n})
-    ops.append({"op": "set_formula", "s": ["T"], "c": "a", "f": "A1"})
-    ops.append({"op": "set_formula", "s": ["T"], "c": "a", "f": "A5"})
+    ops.append({"op": "set_formula", "s": ["T", "W"], "c": "a", "f": "A1"})
+    ops.append({"op": "set_formula", "s": ["T", "W"], "c": "a", "f": "A5"})
     ops.append({"op": "set_formula", "s": ["S"], "c": "b", "f": "B1"})
-    for s, c in ((["T"], "a"), (["S"], "b")):
+    for s, c in ((["T", "W"], "a"), (["S"], "b")):
         for b in (True, False):
             ops.append({"op": "set_cached", "s": s, "c": c, "b": b})
     # a whole space goes away: its values (inputs too), the values computed from its cells,
